@@ -479,7 +479,7 @@ def run(tier, seed):
     # part 3
     plist = [(d, size, retry, order, lat) for d in ("c2s", "s2c") for size, retry in ((30, "none"), (30, "best"), (1700, "retry"))
              for order, lat in ((("cs", 1), ("sc", 0)) if tier == "quick" else (("cs", 1), ("sc", 0), ("cs", 0), ("sc", 1)))]
-    st = explore.explore_all("checks.c08", "scenario", plist, 2, time_budget=(120 if tier == "quick" else 900))
+    st = explore.explore_all("checks.c08", "scenario", plist, 2, time_budget=(900 if tier == "quick" else 1800))
     for v in st.violations:
         key = (v["oracle"], v["sig"])
         if key not in acc:
